@@ -50,8 +50,12 @@ func (f *vMemFile) WriteAt(p []byte, off int64) (int, error) {
 
 // vBuildCar writes a CAR with the library's storage writer: roots = the first block's CID.
 func vBuildCar(blocks []vBlk, opts ...carv2.Option) []byte {
+	return vBuildCarRoots([]cid.Cid{blocks[0].c}, blocks, opts...)
+}
+
+func vBuildCarRoots(roots []cid.Cid, blocks []vBlk, opts ...carv2.Option) []byte {
 	f := &vMemFile{}
-	w, err := storage.NewWritable(f, []cid.Cid{blocks[0].c}, opts...)
+	w, err := storage.NewWritable(f, roots, opts...)
 	if err != nil {
 		panic("vBuildCar: " + err.Error())
 	}
@@ -239,7 +243,12 @@ func VerifH_C19_DetachAndConcat() {
 	b2 := []vBlk{vValidBlk("c1")}
 	vAssume(b1[0].c.Prefix().MhType != 0)
 	in1 := vInputCar(b1)
-	in2 := vBuildCar(b2, carv2.WriteAsCarV1(vChoose("second-v1", 2) == 1))
+	// the second input's header may differ in size from the first one's (two roots)
+	roots2 := []cid.Cid{b2[0].c}
+	if vChoose("secondTwoRoots", 2) == 1 {
+		roots2 = append(roots2, b2[0].c)
+	}
+	in2 := vBuildCarRoots(roots2, b2, carv2.WriteAsCarV1(vChoose("second-v1", 2) == 1))
 	p1, p2, outPath := vFSPath("one.car"), vFSPath("two.car"), vFSPath("out.car")
 	vFSWriteFile(p1, in1)
 	vFSWriteFile(p2, in2)
